@@ -239,6 +239,17 @@ func sdpAlphabet(quick bool) []mut {
 		j := i + strings.IndexAny(old[i:], ";\r")
 		out = append(out, mut{"field-hevc", h.k + clip(h.v), []byte(old[:i] + h.v + old[j:])})
 	}
+	// static payload types: every value 0..127 as an audio section without rtpmap (alone, and after the video
+	// section), and as the video section's type
+	for pt := 0; pt < 128; pt++ {
+		head := "v=0\r\no=- 0 0 IN IP4 127.0.0.1\r\ns=x\r\nc=IN IP4 127.0.0.1\r\nt=0 0\r\n"
+		out = append(out, mut{"static-pt/audio-only", fmt.Sprint(pt), []byte(head + fmt.Sprintf("m=audio 0 RTP/AVP %d\r\na=control:streamid=0\r\n", pt))})
+		av := string(sdpAV())
+		if i := strings.Index(av, "m=audio"); i > 0 {
+			out = append(out, mut{"static-pt/video+audio", fmt.Sprint(pt), []byte(av[:i] + fmt.Sprintf("m=audio 0 RTP/AVP %d\r\na=control:streamid=1\r\n", pt))})
+		}
+		out = append(out, mut{"static-pt/video", fmt.Sprint(pt), []byte(head + fmt.Sprintf("m=video 0 RTP/AVP %d\r\na=control:streamid=0\r\n", pt))})
+	}
 	out = append(out, mut{"empty", "", []byte{}}, mut{"v-only", "", []byte("v=0\r\n")}, mut{"lf-only", "", []byte(strings.ReplaceAll(string(sdpAV()), "\r\n", "\n"))},
 		mut{"no-eol", "", []byte(strings.TrimSuffix(string(sdpAV()), "\r\n"))}, mut{"binary", "", []byte{0, 1, 2, 0xff, 0xfe, '\r', '\n', '=', '='}}, mut{"equals", "", []byte("=\r\n==\r\na=\r\na=:\r\nm=\r\n")},
 		mut{"audio-first", "", []byte(strings.Replace(string(sdpAV()), "m=video 0 RTP/AVP 96", "m=audio 0 RTP/AVP 96", 1))}, mut{"three-media", "", append(sdpAV(), sdpHevc()[strings.Index(string(sdpHevc()), "m=video"):]...)})
